@@ -1361,7 +1361,15 @@ def ext_cxa_rethrow(ex, st, fr, args, ins):
     if exc is None: raise PathEnd('rethrow without exception')
     raise CxxThrow(exc[0], exc[1])
 def ext_rd_getval(ex, st, fr, args, ins): return 5489   # std::random_device: a fixed seed; random draws are modelled at the distribution level
-DEFAULT_EXT = {'_Znwm': ext_new, '_Znam': ext_new, '_ZdlPv': ext_free, '_ZdaPv': ext_free, '_ZdlPvm': ext_free, '_ZdaPvm': ext_free, 'free': ext_free, 'malloc': ext_new,
+def ext_lround(ex, st, fr, args, ins):
+    """lround / llround: nearest integer, halves away from zero (ties of a symbolic argument go up: a null set)"""
+    x = args[0]
+    if ex.dom.is_conc(x):
+        v = Fraction(x) if not isinstance(x, Fraction) else x
+        k = math.floor(v + Fraction(1, 2)) if v >= 0 else -math.floor(-v + Fraction(1, 2))
+        return k & MASK(64)
+    return Forks([(c, k & MASK(64), None) for c, k in ex.int_split(st, x + Fraction(1, 2), 'floor')])
+DEFAULT_EXT = {'lround': ext_lround, 'lroundf': ext_lround, 'llround': ext_lround, 'llroundf': ext_lround, '_Znwm': ext_new, '_Znam': ext_new, '_ZdlPv': ext_free, '_ZdaPv': ext_free, '_ZdlPvm': ext_free, '_ZdaPvm': ext_free, 'free': ext_free, 'malloc': ext_new,
                'modff': ext_modff, 'memcmp': ext_memcmp, 'bcmp': ext_memcmp, 'strlen': ext_strlen, 'strcmp': ext_strcmp, 'memchr': ext_memchr,
                'memcpy': ext_memmove, 'memmove': ext_memmove, 'memset': ext_memset,
                '_ZNSt13random_device7_M_initERKNSt7__cxx1112basic_stringIcSt11char_traitsIcESaIcEEE': ext_noop, '_ZNSt13random_device7_M_finiEv': ext_noop,
